@@ -623,6 +623,13 @@ func partBadFiles(c *vlib.Check, scID string, st *scanStats) {
 		sp.LogFile = dir + "/daemon.log"
 		// first start: the daemon fabricates its files; stop it, damage one file, start it again
 		ch, err := bench.StartChild(sp)
+		for attempt := 0; err != nil && attempt < 3; attempt++ {
+			// a port picked for the daemon can be taken before it is bound: start again with fresh ports
+			time.Sleep(300 * time.Millisecond)
+			sp = bench.NewSpec(dir, []bench.ChainSpec{{ID: "default", Scheme: scID, Kind: "running"}}, 1)
+			sp.LogFile = dir + "/daemon.log"
+			ch, err = bench.StartChild(sp)
+		}
 		if err != nil {
 			c.EngineError("c15-badfiles %s: first start: %v", scID, err)
 			rm()
